@@ -3,6 +3,9 @@
 //!   R ⊆ F,   R ∩ interest(K) == F ∩ interest(K),   order inside every repeated kind,
 //! and that members after a declined member are unaffected. The expectation E = F restricted to interest(K) is
 //! computed here from F and K only; nothing of the reader / replay code is used.
+//! A visitor answers `interests()` once per member it accepts, and it may answer differently every time: every field,
+//! method, Code attribute and record component is restricted by ITS OWN mask (`K::on_at(level, ordinal of the offered
+//! member, flag)`), never by that of another member of the same class.
 use crate::mask::{Level, K};
 use cf::model::*;
 use serde_json::{json, Value};
@@ -26,6 +29,16 @@ pub struct Offered {
 /// what one visitor observed in one read / replay of one class
 #[derive(Clone, Debug)]
 pub struct Obs { pub offered: Offered, pub built: Vec<Class> }
+
+/// what a visitor observes that is offered every header of F once, accepts everything and receives everything (for canaries)
+pub fn full_obs(f: &Class) -> Obs {
+    let mut o = Offered { classes: vec![ClassHdr { major: f.major, minor: f.minor, access: f.access, this_class: f.this_class.clone(), super_class: f.super_class.clone(), interfaces: f.interfaces.clone(), declined: false }], ..Default::default() };
+    o.fields = f.fields.iter().map(|x| MemberHdr { access: x.access, name: x.name.clone(), desc: x.desc.clone(), declined: false }).collect();
+    o.methods = f.methods.iter().map(|x| MemberHdr { access: x.access, name: x.name.clone(), desc: x.desc.clone(), declined: false }).collect();
+    o.records = f.record.iter().flatten().map(|x| MemberHdr { access: 0, name: x.name.clone(), desc: x.desc.clone(), declined: false }).collect();
+    o.code = f.methods.iter().enumerate().filter(|(_, m)| m.code.is_some()).map(|(j, _)| (j, 1, false)).collect();
+    Obs { offered: o, built: vec![f.clone()] }
+}
 
 #[derive(Clone, Debug)]
 pub struct Problem { pub key: String, pub detail: Value }
@@ -70,8 +83,9 @@ fn align(offered: &[MemberHdr], full: &[(u16, &JS, &JS)]) -> Result<Vec<usize>, 
 
 fn hdr_json(h: &[MemberHdr]) -> Value { json!(h.iter().map(|m| format!("{:#06x} {} {}{}", m.access, m.name.show(), m.desc.show(), if m.declined { " (declined)" } else { "" })).collect::<Vec<_>>()) }
 
-fn restrict_code(cx: &mut Cx, k: &K, f: &Code, r: &mut Code) -> Code {
-    let on = |n: &str| k.on(Level::Code, n);
+/// `ordinal`: of the offered method this Code belongs to (its Code visitor answers `k.on_at(Level::Code, ordinal, ..)`)
+fn restrict_code(cx: &mut Cx, k: &K, ordinal: usize, f: &Code, r: &mut Code) -> Code {
+    let on = |n: &str| k.on_at(Level::Code, ordinal, n);
     // max_stack / max_locals, instructions, exception table: no interest flag, always delivered
     let mut e = Code { max_stack: f.max_stack, max_locals: f.max_locals, insns: f.insns.clone(), exceptions: f.exceptions.clone(), ..Default::default() };
     cx.opt_list("methods[].code.frames", on("stack_map_table"), &f.frames, &mut e.frames, &mut r.frames);
@@ -135,11 +149,11 @@ pub fn judge(f: &Class, k: &K, obs: &Obs) -> Vec<Problem> {
             Err((j, why)) => cx.problem(format!("record components offered: {why}"), json!({"offered_ordinal": j, "offered": hdr_json(&obs.offered.records), "full_read": full.iter().map(|x| format!("{} {}", x.1.show(), x.2.show())).collect::<Vec<_>>() })),
             Ok(map) => {
                 if con("record") && map.len() < full.len() { cx.problem("record components of interest never offered (fewer than the full read reports)".into(), json!({"offered": hdr_json(&obs.offered.records), "full_read_count": full.len()})); }
-                let accepted: Vec<usize> = obs.offered.records.iter().enumerate().filter(|(_, o)| !o.declined).map(|(j, _)| map[j]).collect();
+                let accepted: Vec<(usize, usize)> = obs.offered.records.iter().enumerate().filter(|(_, o)| !o.declined).map(|(j, _)| (j, map[j])).collect();
                 if accepted.len() != rrc.len() { cx.problem("accepted record components and finished record components differ in number".into(), json!({"accepted": accepted.len(), "finished": rrc.len()})); }
                 else {
-                    let ron = |n: &str| k.on(Level::Record, n);
-                    for (rc, fi) in rrc.iter_mut().zip(&accepted) {
+                    for (rc, (ordinal, fi)) in rrc.iter_mut().zip(&accepted) {
+                        let ron = |n: &str| k.on_at(Level::Record, *ordinal, n);
                         let fc = &frc[*fi];
                         let mut ec = RecordComponent { name: fc.name.clone(), desc: fc.desc.clone(), ..Default::default() };
                         cx.opt("record[].signature", ron("signature"), &fc.signature, &mut ec.signature, &mut rc.signature);
@@ -165,11 +179,11 @@ pub fn judge(f: &Class, k: &K, obs: &Obs) -> Vec<Problem> {
             Err((j, why)) => { cx.problem(format!("fields offered: {why}"), json!({"offered_ordinal": j, "offered": hdr_json(&obs.offered.fields), "full_read": f.fields.iter().map(|x| format!("{:#06x} {} {}", x.access, x.name.show(), x.desc.show())).collect::<Vec<_>>() })); r.fields.clear(); }
             Ok(map) => {
                 if con("fields") && map.len() < full.len() { cx.problem("fields of interest never offered (fewer than the full read reports)".into(), json!({"offered": hdr_json(&obs.offered.fields), "full_read_count": full.len()})); }
-                let accepted: Vec<usize> = obs.offered.fields.iter().enumerate().filter(|(_, o)| !o.declined).map(|(j, _)| map[j]).collect();
+                let accepted: Vec<(usize, usize)> = obs.offered.fields.iter().enumerate().filter(|(_, o)| !o.declined).map(|(j, _)| (j, map[j])).collect();
                 if accepted.len() != r.fields.len() { cx.problem("accepted fields and finished fields differ in number".into(), json!({"accepted": accepted.len(), "finished": r.fields.len()})); r.fields.clear(); }
                 else {
-                    let fon = |n: &str| k.on(Level::Field, n);
-                    for (rf, fi) in r.fields.iter_mut().zip(&accepted) {
+                    for (rf, (ordinal, fi)) in r.fields.iter_mut().zip(&accepted) {
+                        let fon = |n: &str| k.on_at(Level::Field, *ordinal, n);
                         let ff = &f.fields[*fi];
                         let mut ef = Field { access: ff.access, name: ff.name.clone(), desc: ff.desc.clone(), deprecated: ff.deprecated, synthetic: ff.synthetic, ..Default::default() };
                         cx.opt("fields[].constant_value", fon("constant_value"), &ff.constant_value, &mut ef.constant_value, &mut rf.constant_value);
@@ -196,9 +210,9 @@ pub fn judge(f: &Class, k: &K, obs: &Obs) -> Vec<Problem> {
                 let accepted: Vec<(usize, usize)> = obs.offered.methods.iter().enumerate().filter(|(_, o)| !o.declined).map(|(j, _)| (j, map[j])).collect();
                 if accepted.len() != r.methods.len() { cx.problem("accepted methods and finished methods differ in number".into(), json!({"accepted": accepted.len(), "finished": r.methods.len()})); r.methods.clear(); }
                 else {
-                    let mon = |n: &str| k.on(Level::Method, n);
                     let code_declined = k.code.expand(obs.offered.methods.len());
                     for (rm, (ordinal, fi)) in r.methods.iter_mut().zip(&accepted) {
+                        let mon = |n: &str| k.on_at(Level::Method, *ordinal, n);
                         let fm = &f.methods[*fi];
                         let mut em = Method { access: fm.access, name: fm.name.clone(), desc: fm.desc.clone(), deprecated: fm.deprecated, synthetic: fm.synthetic, ..Default::default() };
                         // Code: delivered iff of interest and not refused by visit_code -> None
@@ -209,8 +223,8 @@ pub fn judge(f: &Class, k: &K, obs: &Obs) -> Vec<Problem> {
                         if fm.code.is_none() && visits != 0 { cx.problem("visit_code called for a method without Code in the full read".into(), json!({"method": fm.name.show()})); }
                         if refused && rm.code.is_some() { cx.problem("refused Code still delivered".into(), json!({"method": fm.name.show()})); }
                         match (&fm.code, &mut rm.code) {
-                            (Some(fc), Some(rc)) => { let ec = restrict_code(&mut cx, k, fc, rc); if want { em.code = Some(ec); } else { if *rc != ec { cx.unexpected("methods[].code", json!("(code of the full read)"), json!("(a different code)")); } rm.code = None; } }
-                            (Some(fc), None) => { if want { let mut dummy = Code::default(); em.code = Some(restrict_code(&mut Cx { p: vec![] }, k, fc, &mut dummy)); } }
+                            (Some(fc), Some(rc)) => { let ec = restrict_code(&mut cx, k, *ordinal, fc, rc); if want { em.code = Some(ec); } else { if *rc != ec { cx.unexpected("methods[].code", json!("(code of the full read)"), json!("(a different code)")); } rm.code = None; } }
+                            (Some(fc), None) => { if want { let mut dummy = Code::default(); em.code = Some(restrict_code(&mut Cx { p: vec![] }, k, *ordinal, fc, &mut dummy)); } }
                             (None, Some(_)) => { cx.unexpected("methods[].code", json!(null), json!("(some code)")); rm.code = None; }
                             (None, None) => {}
                         }
